@@ -24,7 +24,7 @@ ASSUMPTIONS = ['Agent/Environment/world classes are process-global: every histor
                'tags are plain ints']
 FLOORS = {'quick': {'class_observations': 100000, 'class_attach': 2000, 'class_detach': 400, 'rejected_duplicate_attach': 200,
                     'rejected_absent_detach': 500, 'default_tag_changes': 2000, 'instances_default_tag': 2000,
-                    'instances_default_tag_nonzero': 390, 'instances_explicit_tag': 800, 'instances_explicit_zero_vs_default': 100,
+                    'instances_default_tag_nonzero': 380, 'instances_explicit_tag': 800, 'instances_explicit_zero_vs_default': 100,
                     'environment_instances': 500, 'ops_on_library_classes': 2000, 'mid_history_classes': 500, 'same_named_classes': 300,
                     'reach:Core._MetaAgent.add_class_component': 3000, 'reach:Core.Agent.__init__': 4600},
           'thorough': {'class_observations': 5000000}}
